@@ -136,3 +136,319 @@ def conn_oracle(ops, out):
         prev_sent = o['nsent']
         prev_buf = o['buffer']
     return None
+
+
+# ------------------------------------------------------------------------------------------------
+# the per-connection machine: event lists against the real handler classes
+TICK = 1024                      # clock ticks per second (exact in binary floating point)
+T0 = 1000 * TICK                 # start of every simulated connection
+
+_FLAGS = {}
+
+def get_flags(max_send=3, threaded=False, timeout=10, web=False, static_dir=None):
+    key = (max_send, threaded, timeout, web, static_dir)
+    if key not in _FLAGS:
+        args = ['--max-sendbuf-size', str(max_send), '--timeout', str(timeout)]
+        if threaded:
+            args.append('--threaded')
+        if web:
+            args += ['--enable-web-server', '--plugins', 'proxy.plugin.WebServerPlugin']
+        if static_dir:
+            args += ['--enable-static-server', '--static-server-dir', static_dir]
+        _FLAGS[key] = sim.make_flags(args=args)
+    return _FLAGS[key]
+
+
+def tunnel_handler_klass():
+    """the repository's own BaseTcpTunnelHandler subclass (examples/https_connect_tunnel.py) when present,
+    otherwise an identical local subclass"""
+    import importlib.util
+    p = C.REPO / 'examples' / 'https_connect_tunnel.py'
+    if p.exists():
+        try:
+            spec = importlib.util.spec_from_file_location('verif_https_connect_tunnel', str(p))
+            m = importlib.util.module_from_spec(spec)
+            spec.loader.exec_module(m)
+            return m.HttpsConnectTunnelHandler
+        except Exception:
+            pass
+    from proxy.core.base import BaseTcpTunnelHandler
+    from proxy.http.responses import PROXY_TUNNEL_UNSUPPORTED_SCHEME, PROXY_TUNNEL_ESTABLISHED_RESPONSE_PKT
+
+    class HttpsConnectTunnelHandler(BaseTcpTunnelHandler):
+        def handle_data(self, data):
+            if self.upstream and self.upstream._conn is not None:
+                self.upstream.queue(data)
+                return None
+            self.request.parse(data)
+            if not self.request.is_https_tunnel:
+                self.work.queue(PROXY_TUNNEL_UNSUPPORTED_SCHEME)
+                return True
+            assert self.request.is_complete
+            self.connect_upstream()
+            self.work.queue(PROXY_TUNNEL_ESTABLISHED_RESPONSE_PKT)
+            return None
+    return HttpsConnectTunnelHandler
+
+
+class FakeSelector:
+    """stands for self.selector of a threaded-mode handler during shutdown()._flush():
+    one scripted entry per select() call: None = timed out, otherwise the outcome of the send that follows"""
+    def __init__(self, client_sock, script):
+        self.sock = client_sock
+        self.script = list(script)
+        self.calls = 0
+
+    def register(self, fileobj, events, data=None):
+        pass
+
+    def unregister(self, fileobj):
+        pass
+
+    def modify(self, *a, **k):
+        pass
+
+    def close(self):
+        pass
+
+    def select(self, timeout=None):
+        import selectors
+        self.calls += 1
+        if not self.script:
+            raise BrokenPipeError(errno.EPIPE, 'harness: flush script exhausted')
+        item = self.script.pop(0)
+        if item is None:
+            return []
+        self.sock.send_script[:] = [py_outcome(item)]
+        key = selectors.SelectorKey(self.sock, self.sock.fd, selectors.EVENT_WRITE, None)
+        return [(key, selectors.EVENT_WRITE)]
+
+
+def ack_packet():
+    from proxy.http.responses import PROXY_TUNNEL_ESTABLISHED_RESPONSE_PKT
+    return bytes(PROXY_TUNNEL_ESTABLISHED_RESPONSE_PKT)
+
+
+def int_code(names):
+    c = names.get('client', '')
+    u = names.get('up0', '')
+    return (1 if 'r' in c else 0) + (2 if 'w' in c else 0) + (4 if 'r' in u else 0) + (8 if 'w' in u else 0)
+
+
+def _up_conn(h, handler):
+    """the upstream TcpServerConnection when it is connected"""
+    if handler == 'tunnel':
+        u = getattr(h, 'upstream', None)
+    else:
+        u = getattr(h.plugin, 'upstream', None) if h.plugin is not None else None
+    if u is not None and getattr(u, '_conn', None) is not None and not u.closed:
+        return u
+    return None
+
+
+def run_relay(case):
+    """drive one real handler through case['events']; returns observations + the oracles seen at handle_data"""
+    from proxy.http.parser import httpParserStates
+    from proxy.http.exception import HttpProtocolException
+    handler = case.get('handler', 'http')
+    threaded = bool(case.get('threaded'))
+    flags = get_flags(case.get('max_send', 3), threaded, case.get('timeout', 10), bool(case.get('web')),
+                      case.get('static_dir'))
+    clock = sim.VClock(case.get('t0', T0) / TICK)
+    klass = tunnel_handler_klass() if handler == 'tunnel' else None
+    connect_script = [None if x is None else sim.io_error(x) for x in case.get('connect', [])]
+    steps, oracles = [], []
+    uprcvd, clrcvd = b'', b''
+    with sim.Sim(flags=flags, clock=clock, handler_klass=klass, connect_script=connect_script) as S:
+        h = S.h
+        if threaded and handler == 'http':
+            try:
+                h.selector.close()
+            except Exception:
+                pass
+            h.selector = FakeSelector(S.client, list(case.get('sel', [])) + ['pipe'])
+        cq = []                       # every piece queued for the client, in order
+        orig_queue = h.work.queue
+        def client_queue(mv):
+            cq.append(bytes(mv))
+            return orig_queue(mv)
+        h.work.queue = client_queue
+        rec = {}
+        orig_hd = h.handle_data
+        def handle_data(data):
+            u = _up_conn(h, handler)
+            rec.update(called=True, data=bytes(data), cq0=len(cq), up_before=u is not None,
+                       ub0=len(u.buffer) if u is not None else 0,
+                       complete_before=(h.request.state == httpParserStates.COMPLETE))
+            try:
+                r = orig_hd(data)
+            except BaseException as e:
+                rec['exc'] = type(e).__name__
+                raise
+            rec['ret'] = r
+            return r
+        h.handle_data = handle_data
+
+        final_res = 0
+        for ev in case['events']:
+            clock.t = ev['now'] / TICK
+            names, _ = S.interest()
+            rec.clear()
+            # script the outcome of every I/O call of this step
+            S.client.inq[:] = [py_recv(ev['c_recv'])] if ev.get('c_recv') is not None else []
+            S.client.send_script[:] = [py_outcome(ev['c_send'])] if ev.get('c_send') is not None else []
+            up = S.upstreams[0] if S.upstreams else None
+            if up is not None:
+                up.inq[:] = [py_recv(ev['u_recv'])] if ev.get('u_recv') is not None else []
+                up.send_script[:] = [py_outcome(ev['u_send'])] if ev.get('u_send') is not None else []
+            x = S.step(ev.get('r', ()), ev.get('w', ()))
+            res = 0 if x == 'ok' else 1 if x == 'teardown' else 2
+            # what was consumed
+            if up is not None and isinstance(ev.get('u_recv'), (bytes, bytearray)) and ev['u_recv'] and not up.inq:
+                uprcvd += bytes(ev['u_recv'])          # the scripted piece was taken by a recv() call
+            for s_ in [S.client] + S.upstreams:
+                s_.inq[:] = []
+                s_.send_script[:] = []
+            # the oracles observed at the handle_data boundary
+            orc = dict(req='inc', cdata='nothing')
+            if rec.get('called'):
+                u = _up_conn(h, handler)
+                newc = cq[rec['cq0']:]
+                newu = [bytes(b) for b in u.buffer[rec['ub0']:]] if (u is not None and rec['up_before']) else \
+                       ([bytes(b) for b in u.buffer] if u is not None else [])
+                if rec['up_before'] and (handler == 'tunnel' or rec['complete_before']):
+                    clrcvd += rec['data']
+                if handler == 'tunnel':
+                    if not rec['up_before']:
+                        if 'exc' in rec:
+                            orc['req'] = 'raise'
+                        elif u is not None:
+                            orc['req'] = ['proxy', True, b'']
+                        elif rec.get('ret') is True:
+                            orc['req'] = ['error', newc]
+                        elif newc:
+                            orc['req'] = ['serve', newc]
+                elif not rec['complete_before']:
+                    is_proxy = h.plugin is not None and type(h.plugin).__name__ == 'HttpProxyPlugin'
+                    if 'exc' in rec:
+                        orc['req'] = 'raise'
+                    elif is_proxy and u is not None and rec.get('ret') is not True:
+                        orc['req'] = ['proxy', bool(h.request.is_https_tunnel), b''.join(newu)]
+                    elif rec.get('ret') is True:
+                        orc['req'] = ['error', newc]
+                    elif h.request.state == httpParserStates.COMPLETE:
+                        orc['req'] = ['serve', newc]
+                    elif newc:
+                        orc['req'] = ['serve', newc]      # cannot happen; would show up as a mismatch
+                else:
+                    is_proxy = h.plugin is not None and type(h.plugin).__name__ == 'HttpProxyPlugin'
+                    if 'exc' in rec:
+                        orc['cdata'] = 'raise'
+                    elif rec.get('ret') is True:
+                        orc['cdata'] = ['proto', newc]
+                    elif is_proxy and rec['up_before'] and newu and not h.request.is_https_tunnel:
+                        pr = getattr(h.plugin, 'pipeline_request', None)
+                        orc['cdata'] = ['forward', b''.join(newu), bool(pr is not None and pr.is_connection_upgrade)]
+                    elif newc:
+                        orc['cdata'] = ['reply', newc]
+            oracles.append(orc)
+            u = _up_conn_any(S, h, handler)
+            probe = ev.get('probe', ev['now'])
+            inactive = None
+            if handler == 'http':
+                clock.t = probe / TICK
+                inactive = bool(h.is_inactive())
+                clock.t = ev['now'] / TICK
+            steps.append(dict(int=int_code(names), res=res, csent=len(S.client.out),
+                              usent=len(S.upstreams[0].out) if S.upstreams else 0,
+                              cpend=sum(len(b) for b in h.work.buffer),
+                              upend=sum(len(b) for b in u.buffer) if u is not None else 0,
+                              la=round(getattr(h, 'last_activity', case.get('t0', T0) / TICK) * TICK),
+                              inactive=inactive, uprcvd_len=len(uprcvd), clrcvd_len=len(clrcvd),
+                              established=bool(S.upstreams)))
+            final_res = res
+            if res:
+                break
+        u = _up_conn_any(S, h, handler)
+        fin = dict(res=final_res, cout=S.client.out, uout=S.upstreams[0].out if S.upstreams else b'',
+                   cpend=b''.join(bytes(b) for b in h.work.buffer),
+                   upend=b''.join(bytes(b) for b in u.buffer) if u is not None else b'',
+                   uprcvd=uprcvd, clrcvd=clrcvd, cclosed=bool(S.client.closed),
+                   uclosed=0 if not S.upstreams else (2 if S.upstreams[0].closed else 1),
+                   int=int_code(S.interest()[0]) if not final_res else 0,
+                   shutdown_exc=getattr(S, 'shutdown_exc', None) and type(S.shutdown_exc).__name__,
+                   trace=list(S.trace), queued=b''.join(cq),
+                   client_log=[l for l in S.client.log if l[0] in ('send', 'send_err', 'close')][-40:])
+    return dict(steps=steps, oracles=oracles, fin=fin)
+
+
+def _up_conn_any(S, h, handler):
+    """upstream connection object whose buffer should be reported (connected, even if closed by shutdown)"""
+    if handler == 'tunnel':
+        u = getattr(h, 'upstream', None)
+    else:
+        u = getattr(h.plugin, 'upstream', None) if h.plugin is not None else None
+    if u is not None and getattr(u, '_conn', None) is not None:
+        return u
+    return None
+
+
+# ---- Coq terms
+def coq_req(o):
+    if o == 'inc':
+        return 'RIncomplete'
+    if o == 'raise':
+        return 'RRaise'
+    if o[0] == 'error':
+        return '(RError %s)' % coq_blist(o[1])
+    if o[0] == 'serve':
+        return '(RServe %s)' % coq_blist(o[1])
+    if o[0] == 'proxy':
+        return '(RProxy %s %s)' % (C.coq_bool(o[1]), C.coq_bytes(o[2]))
+    raise ValueError(o)
+
+
+def coq_cdata(o):
+    if o == 'nothing':
+        return 'DNothing'
+    if o == 'raise':
+        return 'DRaise'
+    if o[0] == 'proto':
+        return '(DProto %s)' % coq_blist(o[1])
+    if o[0] == 'reply':
+        return '(DReply %s)' % coq_blist(o[1])
+    if o[0] == 'forward':
+        return '(DForward %s %s)' % (C.coq_bytes(o[1]), C.coq_bool(o[2]))
+    raise ValueError(o)
+
+
+def coq_event(ev, orc):
+    r, w = ev.get('r', ()), ev.get('w', ())
+    return '(mkEvent %s %s %s %s %s %s %s %s %s %s %s, %s)' % (
+        C.coq_Z(ev['now']), C.coq_bool('client' in r), C.coq_bool('client' in w),
+        C.coq_bool('up0' in r), C.coq_bool('up0' in w),
+        coq_outcome(ev['c_send']) if ev.get('c_send') is not None else '(Accept 1000000)',
+        coq_outcome(ev['u_send']) if ev.get('u_send') is not None else '(Accept 1000000)',
+        coq_recv(ev['c_recv']) if ev.get('c_recv') is not None else 'ROsErr',
+        coq_recv(ev['u_recv']) if ev.get('u_recv') is not None else 'ROsErr',
+        coq_req(orc['req']), coq_cdata(orc['cdata']), C.coq_Z(ev.get('probe', ev['now'])))
+
+
+def coq_relay_case(case, out):
+    handler = case.get('handler', 'http')
+    n = len(out['steps'])
+    evs = [coq_event(ev, orc) for ev, orc in zip(case['events'][:n], out['oracles'][:n])]
+    cfg = '(mkCfg %d %s %s %s)' % (case.get('max_send', 3), C.coq_bytes(ack_packet()),
+                                  C.coq_Z(case.get('timeout', 10) * TICK), C.coq_bool(not case.get('threaded')))
+    exp = ['(mkSO %d %d %d %d %d %d %s %s)' % (s['int'], s['res'], s['csent'], s['usent'], s['cpend'], s['upend'],
+                                               C.coq_Z(s['la']),
+                                               C.coq_bool(s['inactive']) if s['inactive'] is not None else 'false')
+           for s in out['steps']]
+    f = out['fin']
+    fin = '(mkFO %d %s %s %s %s %s %s %s %d %d)' % (
+        f['res'], C.coq_bytes(f['cout']), C.coq_bytes(f['uout']), C.coq_bytes(f['cpend']), C.coq_bytes(f['upend']),
+        C.coq_bytes(f['uprcvd']), C.coq_bytes(f['clrcvd']), C.coq_bool(f['cclosed']), f['uclosed'], f['int'])
+    sel = C.coq_list(('None' if x is None else '(Some %s)' % coq_outcome(x)) for x in list(case.get('sel', [])) + ['pipe']) \
+        if case.get('threaded') else '[]'
+    return 'CRelay %s %s %s %s %s %s %s' % ('KTunnel' if handler == 'tunnel' else 'KHttp', cfg,
+                                           C.coq_Z(case.get('t0', T0)), C.coq_list(evs), sel, C.coq_list(exp), fin)
